@@ -51,3 +51,43 @@ pub unsafe fn unbox_by_hand<T, N: ArrayLength>(value: Box<GenericArray<T, N>>) -
     }
     array
 }
+
+/// Positive fixture for C16.M: the box is suppressed (`ManuallyDrop<Box<..>>`) and released by hand AFTER the element destructors ran; if one of
+/// them panics the release is skipped - must be reported on every run.
+pub struct LeakyGuard<T> {
+    pub block: core::mem::ManuallyDrop<Box<[MaybeUninit<T>; 4]>>,
+    pub len: usize,
+}
+
+impl<T> Drop for LeakyGuard<T> {
+    fn drop(&mut self) {
+        unsafe {
+            core::ptr::drop_in_place(core::ptr::slice_from_raw_parts_mut(self.block.as_mut_ptr() as *mut T, self.len));
+            core::mem::ManuallyDrop::drop(&mut self.block);
+        }
+    }
+}
+
+/// Negative twin: the release sits in the destructor of a local guard, which runs on the unwind path of the element destructors too - must NOT be reported.
+pub struct NestedGuard<T> {
+    pub block: core::mem::ManuallyDrop<Box<[MaybeUninit<T>; 4]>>,
+    pub len: usize,
+}
+
+struct Release<'a, T>(&'a mut core::mem::ManuallyDrop<Box<[MaybeUninit<T>; 4]>>);
+
+impl<T> Drop for Release<'_, T> {
+    fn drop(&mut self) {
+        unsafe { core::mem::ManuallyDrop::drop(self.0) }
+    }
+}
+
+impl<T> Drop for NestedGuard<T> {
+    fn drop(&mut self) {
+        unsafe {
+            let len = self.len;
+            let release = Release(&mut self.block);
+            core::ptr::drop_in_place(core::ptr::slice_from_raw_parts_mut(release.0.as_mut_ptr() as *mut T, len));
+        }
+    }
+}
